@@ -25,7 +25,18 @@ def main():
         if a.replay:
             obj = json.load(open(a.replay))
             return mod.replay(ctx, obj)
-        mod.run(ctx)
+        try:
+            mod.run(ctx)
+        except (core.Infra, subprocess_timeout()):
+            raise
+        except Exception:
+            # the harness itself crashed (possibly on behaviour of a changed tree it did not anticipate):
+            # concrete property failures found before the crash are still reported
+            traceback.print_exc()
+            if not ctx.found_input:
+                print('INFRA-ERROR: harness crashed', file=sys.stderr)
+                return 2
+            ctx.cov['harness_crash'] = traceback.format_exc()[-1500:]
         return ctx.finish()
     except core.Infra as e:
         print('INFRA-ERROR:', e, file=sys.stderr)
